@@ -1,8 +1,177 @@
 import GB.Base.Proto
+import GB.C20.Model
+import GB.C20.Spec
+/-
+  C20 driver. Case lines (byte strings hex-encoded, lists comma-separated, `-` = empty list):
+
+    gw <tmpl>    => err | ok <String()> <OpCodes> <Pool> <Verb> <Fields>     gwbased Parse + Compile
+    st <tmpl>    => err | ok <VerifDump()>                                   strict Parse
+    gtok <path>  => <tokens> <verb>                                          gwbased tokenize
+    stok <path>  => <tokens>                                                 strict tokenize
+    trie <method:tmpl,…> <method> <path> => none | found <tmpl>              strict Trie Add*/Find
+
+  Specification side (VIOL): the grammar recogniser `specParse` (Spec.lean) decides membership and
+  assigns verb / field paths; `matchesB` decides whether a template matches a path.
+  Model side (DIFF): the outputs of the models in Model.lean.
+-/
 namespace GB.C20
 open GB GB.Proto
 
-/-- stub: replaced when the C20 slice is built -/
-def handle : Handler := fun _ _ => "BAD c20 unimplemented"
+def hexList (xs : List Bytes) : String :=
+  if xs.isEmpty then "-" else ",".intercalate (xs.map toHex)
+
+def natList (xs : List Nat) : String :=
+  if xs.isEmpty then "-" else ",".intercalate (xs.map toString)
+
+def parseHexList (s : String) : Option (List Bytes) :=
+  if s == "-" then some [] else allSome ((s.splitOn ",").map parseHex)
+
+def errName : PErr → String
+  | .reject => "err"
+  | .panic => "PANIC"
+  | .fuel => "FUEL"
+
+def gwOut (s : Bytes) : String :=
+  match gwParse s with
+  | .error e => errName e
+  | .ok t =>
+    let c := t.compile
+    s!"ok {toHex t.str} {natList c.ops} {hexList c.pool} {toHex c.verb} {hexList c.fields}"
+
+def stOut (s : Bytes) : String :=
+  match stParse s with
+  | .error e => errName e
+  | .ok t => s!"ok {toHex t.dump}"
+
+def gtokOut (s : Bytes) : String :=
+  match gwTokenize s with
+  | .error e => errName e
+  | .ok (ts, v) => s!"{hexList ts} {toHex v}"
+
+/-- the class of a string outside the (relaxed) grammar, in the words of the property -/
+def rejectClass (s : Bytes) : String :=
+  if noLeadingSlash s then "no-leading-slash"
+  else if illegalChar s then "illegal-char"
+  else if badPercent s then "illegal-char(percent-encoding)"
+  else if badBraces s then "unbalanced-or-nested-variable"
+  else if badFieldPath s then "bad-field-path"
+  else if emptySegment s then "empty-segment"
+  else "other"
+
+def firstWord (out : List String) : String :=
+  match out with
+  | w :: _ => if w.startsWith "PANIC" then "PANIC" else w
+  | [] => ""
+
+def plausible (s : Bytes) : Bool :=
+  match s with
+  | c :: _ :: _ => c == cSlash
+  | _ => false
+
+def handleGw (s : Bytes) (out : List String) : String :=
+  let implOk := firstWord out == "ok"
+  let m := gwOut s
+  let impl := " ".intercalate (if firstWord out == "PANIC" then ["PANIC"] else out)
+  let nt := if implOk || plausible s then " nt" else ""
+  match specParse s with
+  | some t =>
+    if !implOk then s!"VIOL gw rejects a string of the grammar (model={m})"
+    else
+      match out with
+      | [_, _, _, _, v, fs] =>
+        if v != toHex t.verbStr then s!"VIOL gw verb differs from the grammar's: want {toHex t.verbStr}"
+        else if fs != hexList t.fields then s!"VIOL gw field paths differ from the grammar's: want {hexList t.fields}"
+        else if impl != m then s!"DIFF model={m}"
+        else s!"OK{nt} b=gw-grammar"
+      | _ => "BAD gw ok line"
+  | none =>
+    match specParseWith true s with
+    | some _ =>
+      -- outside the grammar only because of a `**` that is not last: gwbased may accept it
+      if impl != m then s!"DIFF model={m}" else s!"OK{nt} b=gw-relaxed-{firstWord out}"
+    | none =>
+      let cls := rejectClass s
+      if implOk && cls != "other" then s!"VIOL gw accepts a string with {cls} (model={m})"
+      else if impl != m then s!"DIFF model={m}"
+      else s!"OK{nt} b=gw-{firstWord out}-{cls}"
+
+def handleSt (s : Bytes) (out : List String) : String :=
+  let implOk := firstWord out == "ok"
+  let m := stOut s
+  let impl := " ".intercalate (if firstWord out == "PANIC" then ["PANIC"] else out)
+  let nt := if implOk || plausible s then " nt" else ""
+  let g := inGrammar s
+  if g && !implOk then s!"VIOL strict parser rejects a string of the grammar (model={m})"
+  else if !g && implOk then s!"VIOL strict parser accepts a string outside the grammar: {rejectClass s} (model={m})"
+  else if impl != m then s!"DIFF model={m}"
+  else s!"OK{nt} b=st-{firstWord out}"
+
+def parseEntries (s : String) : Option (List (Bytes × Bytes)) :=
+  if s == "-" then some []
+  else allSome ((s.splitOn ",").map (fun e =>
+    match e.splitOn ":" with
+    | [m, t] => match parseHex m, parseHex t with
+      | some m, some t => some (m, t)
+      | _, _ => none
+    | _ => none))
+
+def buildTrie (es : List (Bytes × Bytes)) : Trie :=
+  es.foldl (fun tr (m, t) => match stParse t with
+    | .ok tm => tr.add m tm
+    | .error _ => tr) []
+
+def trimSlash (p : Bytes) : Bytes :=
+  match p with
+  | c :: r => if c == cSlash then r else p
+  | [] => p
+
+def handleTrie (es : List (Bytes × Bytes)) (method path : Bytes) (out : List String) : String :=
+  let permitted := ((buildTrie es).find method path).map (·.tmpl)
+  let mstr := if permitted.isEmpty then "none" else "found " ++ hexList permitted
+  match out with
+  | ["none"] =>
+    if permitted.isEmpty then "OK b=trie-none" else s!"DIFF model={mstr}"
+  | ["found", hx] =>
+    match parseHex hx with
+    | none => "BAD trie hex"
+    | some t =>
+      -- specification: the template was added under this method, and matches the path
+      if !es.contains (method, t) then s!"VIOL trie returns a template that was not added"
+      else match specParse t with
+        | none => s!"VIOL trie returns a template outside the grammar"
+        | some tm =>
+          if !matchesB tm.mkeys tm.verbStr (splitOnByte cSlash (trimSlash path)) then
+            s!"VIOL trie returns a template that does not match the path (model={mstr})"
+          else if !permitted.contains t then s!"DIFF model={mstr}"
+          else "OK nt b=trie-found"
+  | w :: _ => if w.startsWith "PANIC" then s!"DIFF model={mstr} impl=PANIC" else "BAD trie out"
+  | [] => "BAD trie out"
+
+def handle : Handler
+  | ["gw", hx], out =>
+    match parseHex hx with
+    | some s => handleGw s out
+    | none => "BAD hex"
+  | ["st", hx], out =>
+    match parseHex hx with
+    | some s => handleSt s out
+    | none => "BAD hex"
+  | ["gtok", hx], out =>
+    match parseHex hx with
+    | some s =>
+      let m := gtokOut s
+      if " ".intercalate out != m then s!"DIFF model={m}" else "OK b=gtok"
+    | none => "BAD hex"
+  | ["stok", hx], out =>
+    match parseHex hx with
+    | some s =>
+      let m := hexList (stTokenize s)
+      if " ".intercalate out != m then s!"DIFF model={m}" else "OK b=stok"
+    | none => "BAD hex"
+  | ["trie", es, m, p], out =>
+    match parseEntries es, parseHex m, parseHex p with
+    | some es, some m, some p => handleTrie es m p out
+    | _, _, _ => "BAD trie line"
+  | _, _ => "BAD c20 line"
 
 end GB.C20
